@@ -66,7 +66,22 @@ def gen(R, tier):
     nfr_t = R.choice([1, 2, 2, 3, 4])
     owner = molgen.partition(R, m, max_frags=nfr_t, min_frags=nfr_t)
     feats = {'mol:' + cname}
-    shared = R.chance(0.25) and max(owner) >= 1
+    zero_edges = ()
+    if R.chance(0.2):
+        # a mixture: a second, unbonded molecule joined to the first by an order-0 edge of the base graph
+        c2 = dict(R.choice(CLASSES[:2]))
+        c2.pop('name')
+        m2 = molgen.gen_mol(R, **c2)
+        if not rdkit_sane(m2):
+            return None
+        k2 = R.choice([1, 1, 2])
+        owner2 = molgen.partition(R, m2, max_frags=k2, min_frags=k2)
+        nf1 = max(owner) + 1
+        m, off = molgen.disjoint_union(m, m2)
+        owner = owner + [nf1 + o for o in owner2]
+        zero_edges = [(R.randrange(nf1), nf1 + R.randrange(max(owner2) + 1))]
+        feats.add('mixture_of_two_molecules')
+    shared = R.chance(0.25) and max(owner) >= 1 and not zero_edges
     weights = {}
     if R.chance(0.5):
         for i in range(len(m.atoms)):
@@ -77,7 +92,7 @@ def gen(R, tier):
         weights = {}
     else:
         s, info = molgen.build_cgsmiles(R, m, owner, style=molgen.style_draw(R), feats=feats,
-                                        annot={i: w for i, w in weights.items()} or None)
+                                        annot={i: w for i, w in weights.items()} or None, zero_edges=zero_edges)
     if s is None:
         return None
     if shared and info['nshared']:
